@@ -18,11 +18,28 @@ PLAN = dict(
           "FILE_SIZE or SIZE_PKG value that is empty, '12x', '1.5', ' 5', '5 ', beyond i64, ... -> ParseInt; "
           "(e) 2-3 faults at once -> rejected with one of the causes present; (f) every one of the 2^11 subsets "
           "of the required variables set through set_*/push_* -> is_completed() iff the subset is full, and the "
-          "printed form parses iff is_completed(). Only the error kind (and which variable for Incomplete) is "
+          "printed form parses iff is_completed(), and is_completed() is asked after every single call on the way "
+          "(it must follow the calls made so far whatever it answered before); (g) near misses of the 23 names, "
+          "enumerated for every name: one of 22 invisible or blank characters (BOM, zero-width space / joiner / "
+          "non-joiner, word joiner, soft hyphen, NBSP and five other Unicode blanks, space, tab, NUL, LRM, "
+          "combining accent, variation selector, DEL ...) before the name, after it, after its first character or "
+          "around its '_'; one character replaced by a look-alike (Cyrillic/Greek homoglyphs, characters that a "
+          "case mapping turns into the ASCII letter such as U+017F, U+0131, U+212A, digits, '-' for '_'); the whole "
+          "name in lower case, capitalised, full-width, with a ligature, doubled, or one letter short - each on the "
+          "first, a middle and the last line, as an extra line and in place of the variable's real lines -> "
+          "ParseVariable (or, in place of a required variable, Incomplete(that one)); lines consisting only of "
+          "invisible characters -> ParseLine; (h) long faulty lines: a line without '=', an unknown name (pure, or "
+          "a valid name with a long tail / head), a long value after an unknown name, a non-integer FILE_SIZE / "
+          "SIZE_PKG, and as the control a fault-free long value that must be accepted verbatim, with lengths "
+          "around 64, 80, 100, 128, 255, 256, 512, 1000, 1024, 2048, 4096, 8192 (16 KiB and 64 KiB once) made of "
+          "2-, 3-, 4-byte or mixed characters at every byte alignment, so that a byte offset chosen without regard "
+          "to character boundaries falls inside a character (a panic is reported by the framework); values of "
+          "fault-free lines come from the same typed dictionaries as in C07 ('../../cat/pkg', 'x-1.0.tgz', URLs, "
+          "BOM-prefixed text ...). Only the error kind (and which variable for Incomplete) is "
           "compared. Non-trivial = an accepted text with a repeated variable or '=' inside a value, any rejected "
           "text, or a proper non-empty subset; distinct = distinct text by 64-bit fingerprint."),
-    exhaustive={"quick": "all 2^11 subsets of the required variables through the setters (2 value/order rounds); each of the eleven required variables removed from each of 4000 base texts",
-                "thorough": "all 2^11 subsets of the required variables through the setters (16 value/order rounds); each of the eleven required variables removed from each of 40000 base texts"},
+    exhaustive={"quick": "all 2^11 subsets of the required variables through the setters (2 value/order rounds); each of the eleven required variables removed from each of 4000 base texts; every near-miss name (23 names x (22 invisible characters x 3-5 placements + look-alikes)) x 3 line positions x insert/replace x 2 rounds; long lines: 14 limits x 10 width/alignment pairs x 7 kinds x 3 positions x 4 rounds",
+                "thorough": "all 2^11 subsets of the required variables through the setters (16 value/order rounds); each of the eleven required variables removed from each of 40000 base texts; the near-miss name enumeration x 12 rounds; the long-line enumeration x 24 rounds"},
     assumptions=[
         "the expectation is known by construction: the generator inserts faults as extra lines and leaves the well-formed lines untouched, so exactly the declared causes are present; this is cross-checked at generation time against an independent line reader (oracle::summary::read), a disagreement aborts the harness",
         "the reference table in harness/src/oracle/summary.rs (names, kinds, eleven required) is a faithful reading of the statement",
@@ -39,5 +56,7 @@ PLAN = dict(
                   "an empty variable name ('=value') is only required to be rejected as malformed line or unknown variable, not one specific kind",
                   "SIZE_PKG whose only line carries a non-integer is required to be rejected as bad integer or as missing SIZE_PKG (FILE_SIZE, and an extra bad SIZE_PKG line next to a good one, are held to ParseInt)",
                   "payload wording of the errors (only kinds are compared)",
-                  "texts longer than ~70 lines"],
+                  "texts longer than ~70 lines; single lines longer than 64 KiB",
+                  "names combined with characters that some line splitters treat as line breaks (VT, FF, NEL U+0085, U+2028, U+2029): what a 'line' is would differ between readings",
+                  "a near-miss name standing in for a required variable may be reported as unknown variable or as that variable missing"],
 )
